@@ -1,11 +1,11 @@
 import GSProofs.Lemmas.LinkTrackSim
 /-!
-Naive specification of the per-peer link tracking, written from the text of property C19, and the
-proof that the model of `peerLinkTracker` refines it on every history in which a dedup key is only
-assigned to a request that has not recorded anything yet (`WF`).
+Naive specification of the per-peer link tracking, written from the text of property C19; the model
+of `peerLinkTracker` refines it on every history (`LinkTrackRefine/Finish.lean`).
 
 The specification keeps, for one peer:
-  * `scope r`  – the dedup key of request `r` (none = default scope),
+  * `scope r`  – the dedup key of request `r` (none = default scope); assigning a key moves the
+                 request and everything it recorded so far into that scope,
   * `cnt r`, `skp r` – number of links reported so far / do-not-send-first-blocks value,
   * `wb` – one entry `(scope, request, link)` for every link a request that is still in progress
            traversed with its block (reported with data, or listed in its ignore list),
@@ -49,8 +49,15 @@ def endReq (σ : Spec) (r : Req) : Spec :=
     ms := σ.ms.filter (fun e => e.2.1 != r)
     live := upd σ.live r false }
 
+/-- request `r` moves to scope `s`: its entries are re-labelled (and listed last). -/
+def moveReq (L : List PEntry) (r : Req) (s : Option Key) : List PEntry :=
+  L.filter (fun e => e.2.1 != r) ++ (L.filter (fun e => e.2.1 == r)).map (fun e => (s, e.2.1, e.2.2))
+
 def step (σ : Spec) : Op → Spec × Out
-  | .dedup r k => ({ σ with scope := upd σ.scope r (some k), live := upd σ.live r true }, .ok)
+  | .dedup r k =>
+    (if σ.scope r = some k then { σ with live := upd σ.live r true }
+     else { σ with scope := upd σ.scope r (some k), wb := moveReq σ.wb r (some k),
+                   ms := moveReq σ.ms r (some k), live := upd σ.live r true }, .ok)
   | .ignore r ls =>
     ({ σ with wb := σ.wb ++ ls.map (fun l => (σ.scope r, r, l)), live := upd σ.live r true }, .ok)
   | .skip r n => ({ σ with skp := upd σ.skp r (some n), live := upd σ.live r true }, .ok)
@@ -70,20 +77,6 @@ def runFrom (σ : Spec) : List Op → Spec × List Out
     let (σ1, out) := σ.step o
     let (σ2, outs) := runFrom σ1 os
     (σ2, out :: outs)
-
-/-- request `r` has no scope and no ledger entry. -/
-def clean (σ : Spec) (r : Req) : Prop :=
-  σ.scope r = none ∧ (∀ e ∈ σ.wb, e.2.1 ≠ r) ∧ (∀ e ∈ σ.ms, e.2.1 ≠ r)
-
-/-- the only restricted operation: a dedup key is assigned to a request before it records anything
-    and at most once per run of the request. -/
-def ok (σ : Spec) : Op → Prop
-  | .dedup r _ => σ.clean r
-  | _ => True
-
-def WFfrom (σ : Spec) : List Op → Prop
-  | [] => True
-  | o :: os => σ.ok o ∧ WFfrom (σ.step o).1 os
 
 end Spec
 
@@ -149,5 +142,107 @@ theorem any_proj_req (L : List PEntry) (s : Option Key) (r : Req)
     refine ⟨e.2, mem_proj.2 ?_, hr⟩
     obtain ⟨a, b, c⟩ := e
     simp at h2; subst h2; exact he
+
+
+/-! ### a request changes scope -/
+
+/-- the `(request, link)` pairs of request `r`, all scopes, in recording order -/
+def reqPairs (L : List PEntry) (r : Req) : Ledger := (L.filter (fun e => e.2.1 == r)).map (·.2)
+
+/-- the links of request `r` in a peer-level ledger, all scopes, in recording order -/
+def reqLinks (L : List PEntry) (r : Req) : List Link := (L.filter (fun e => e.2.1 == r)).map (·.2.2)
+
+theorem proj_moveReq (L : List PEntry) (r : Req) (s s' : Option Key) :
+    proj (Spec.moveReq L r s) s' = dropReq (proj L s') r ++ (if s = s' then reqPairs L r else []) := by
+  unfold Spec.moveReq
+  rw [proj_append, proj_filter_req]
+  congr 1
+  unfold proj reqPairs
+  by_cases h : s = s'
+  · subst h; simp [List.filter_map, Function.comp_def]
+  · simp [h, List.filter_map, Function.comp_def]
+
+theorem mem_moveReq {L : List PEntry} {r : Req} {s : Option Key} {e : PEntry} :
+    e ∈ Spec.moveReq L r s ↔ (e ∈ L ∧ e.2.1 ≠ r) ∨ (e.1 = s ∧ e.2.1 = r ∧ ∃ s0, (s0, r, e.2.2) ∈ L) := by
+  unfold Spec.moveReq
+  simp only [List.mem_append, List.mem_filter, List.mem_map]
+  constructor
+  · rintro (⟨he, hne⟩ | ⟨x, ⟨hx, hxr⟩, rfl⟩)
+    · exact Or.inl ⟨he, by simpa using hne⟩
+    · have hxr' : x.2.1 = r := by simpa using hxr
+      refine Or.inr ⟨rfl, hxr', x.1, ?_⟩
+      obtain ⟨a, b, c⟩ := x
+      simp only at hxr'; subst hxr'; exact hx
+  · rintro (⟨he, hne⟩ | ⟨h1, h2, s0, h3⟩)
+    · exact Or.inl ⟨he, by simpa using hne⟩
+    · refine Or.inr ⟨(s0, r, e.2.2), ⟨h3, by simp⟩, ?_⟩
+      obtain ⟨a, b, c⟩ := e
+      simp only at h1 h2; subst h1; subst h2; rfl
+
+theorem linksOf_reqPairs (L : List PEntry) (r r' : Req) :
+    linksOf (reqPairs L r) r' = if r = r' then reqLinks L r else [] := by
+  unfold linksOf reqPairs reqLinks
+  by_cases h : r = r'
+  · subst h
+    simp only [if_true, List.filter_map, List.map_map]
+    congr 1
+    rw [List.filter_filter]
+    apply List.filter_congr
+    intro e _; simp [Function.comp_def]
+  · simp only [h, if_false, List.map_eq_nil_iff, List.filter_eq_nil_iff, List.mem_map, List.mem_filter]
+    rintro x ⟨e, ⟨_, he⟩, rfl⟩
+    have : e.2.1 = r := by simpa using he
+    simp [this, h]
+
+theorem reqPairs_eq_map (L : List PEntry) (r : Req) : reqPairs L r = (reqLinks L r).map (fun l => (r, l)) := by
+  unfold reqPairs reqLinks
+  rw [List.map_map]
+  apply List.map_congr_left
+  intro e he
+  have : e.2.1 = r := by simpa using (List.mem_filter.1 he).2
+  obtain ⟨a, b, c⟩ := e
+  simp only at this; subst this; rfl
+
+theorem mem_reqPairs {L : List PEntry} {r : Req} {x : Req × Link} :
+    x ∈ reqPairs L r ↔ x.1 = r ∧ ∃ s, (s, r, x.2) ∈ L := by
+  unfold reqPairs
+  simp only [List.mem_map, List.mem_filter]
+  constructor
+  · rintro ⟨e, ⟨he, her⟩, rfl⟩
+    have : e.2.1 = r := by simpa using her
+    refine ⟨this, e.1, ?_⟩
+    obtain ⟨a, b, c⟩ := e
+    simp only at this; subst this; exact he
+  · rintro ⟨h1, s, h2⟩
+    refine ⟨(s, r, x.2), ⟨h2, by simp⟩, ?_⟩
+    obtain ⟨a, b⟩ := x
+    simp only at h1; subst h1; rfl
+
+/-- when every entry of `r` carries `r`'s current scope, the scope-`s` part of the ledger holds all
+    of `r`'s links or none of them -/
+theorem linksOf_proj (L : List PEntry) (sc : Req → Option Key) (hj : ∀ e ∈ L, e.1 = sc e.2.1)
+    (s : Option Key) (r : Req) :
+    linksOf (proj L s) r = if sc r = s then reqLinks L r else [] := by
+  unfold linksOf proj reqLinks
+  induction L with
+  | nil => simp
+  | cons e t ih =>
+    have ih' := ih (fun e he => hj e (List.mem_cons_of_mem _ he))
+    have he := hj e (List.mem_cons_self)
+    obtain ⟨a, b, c⟩ := e
+    simp only at he
+    by_cases h1 : b = r
+    · subst h1
+      by_cases h2 : sc b = s
+      · simp [List.filter_cons, he, h2] at ih' ⊢; exact ih'
+      · simp [List.filter_cons, he, h2] at ih' ⊢; exact ih'
+    · by_cases h2 : a = s
+      · simp [List.filter_cons, h1, h2] at ih' ⊢; exact ih'
+      · simp [List.filter_cons, h1, h2] at ih' ⊢; exact ih'
+
+theorem proj_eq_nil {L : List PEntry} {s : Option Key} (h : ∀ e ∈ L, e.1 ≠ s) : proj L s = [] := by
+  unfold proj
+  simp only [List.map_eq_nil_iff, List.filter_eq_nil_iff]
+  intro e he; simp [h e he]
 
 end GS.LinkTrack
